@@ -241,6 +241,30 @@ def xml_of(lang, root):
     return b"".join(out)
 
 
+def fe_spec(root):
+    """the document as the model of the XML front end takes it (elements, attributes, text items as one chunk each,
+    cut in two when long enough: Expat may deliver a text in pieces); None when it contains CDATA / embedded documents"""
+    out = []
+
+    def go(n):
+        if n.kind == "x":
+            t = n.text
+            out.append("x" + (hx(t[:len(t) // 2]) + "+" + hx(t[len(t) // 2:]) if len(t) >= 2 else hx(t)))
+            return True
+        if n.kind != "e":
+            return False
+        out.append("e" + hx(n.name))
+        for k, v in n.attrs:
+            out.append("a%s=%s" % (hx(k), hx(v)))
+        out.append("(")
+        for k in n.kids:
+            if not go(k):
+                return False
+        out.append(")")
+        return True
+    return ".".join(out) if go(root) else None
+
+
 # ----------------------------------------------------------------------------
 # generator
 # ----------------------------------------------------------------------------
@@ -358,6 +382,32 @@ class Gen:
                 ops.append("E,-1," + hx(nm))
                 tree.append(nd)
                 exp.append(("ok", None))
+                continue
+            if tree and rng.chance(1, 14):
+                # an operation the library refuses: a second root (parent NULL on a rooted tree) or tree == NULL.
+                # Nothing changes; the caller keeps (and the harness destroys) what it offered.
+                pp = pick_parent(fo)
+                pi = pp[0] if (pp and rng.chance(1, 2)) else -1
+                z = rng.chance(1, 2)
+                par = pi if z else -1          # with a tree, the refusal needs the NULL parent
+                k = rng.below(6)
+                if k == 0 and lang["tags"]:
+                    row = self.pick_tag(lang, unique=True)
+                    if row is None:
+                        continue
+                    ops.append("%sG,%d,%d" % ("Z" if z else "", par, lang["tags"].index(row)))
+                elif k == 1:
+                    ops.append("%sL,%d,%s" % ("Z" if z else "", par, hx(rng.choice(LITERALS))))
+                elif k == 2:
+                    ops.append("%sT,%d,%s" % ("Z" if z else "", par, hx(rng.choice(TEXTS))))
+                elif k == 3:
+                    ops.append("%sC,%d" % ("Z" if z else "", par))
+                elif k == 4 and not z:
+                    ops.append("E,-1,%s" % hx(rng.choice(LITERALS)))
+                else:
+                    sub_lang = DEVINF_OF.get(langid, 2202)
+                    ops.append("%sR,%d,%d,%s,%s" % ("Z" if z else "", par, sub_lang, hx(b"syncml:devinf|DevInf"), hx(rng.choice([b"", b"1.2"]))))
+                exp.append(("fail", None))
                 continue
             if r < 40:
                 pp = pick_parent(fo)
